@@ -16,9 +16,11 @@ def run(ctx):
     vecs = tlc_expect_ok(tlc("MC_Identity", "MC_Identity_emit.cfg", name="identity_emit", workers=2, timeout=600, coverage=False), "emit").printed("VEC")
     if len(vecs) != 33:
         raise ToolError("expected 33 vectors, got %d" % len(vecs))
-    algs = ["ed25519"] if ctx.quick else ["ed25519", "es256", "ps256"]
+    # (credential algorithm, asset format): the hard binding an identity assertion must reference is c2pa.hash.data for JPEG / PNG
+    # and the versioned c2pa.hash.bmff.v3 for MP4
+    combos = [("ed25519", "jpeg"), ("ed25519", "mp4")] if ctx.quick else [(a, f) for a in ("ed25519", "es256", "ps256") for f in ("jpeg", "png", "mp4")]
     runs, index = [], []
-    for alg in algs:
+    for alg, fmt in combos:
         groups = {}
         for v in vecs:
             groups.setdefault((v["mode"], v["nrefs"]), []).append(v)
@@ -34,10 +36,10 @@ def run(ctx):
                     # every padding field at its first, middle and last byte: six reads for this vector
                     for which in ("pad1", "pad2"):
                         for pos in ("first", "middle", "last"):
-                            reads.append(dict(rd, name=len(index), pad={"which": which, "pos": pos})); index.append((dict(v, pad="%s:%s" % (which, pos)), alg))
+                            reads.append(dict(rd, name=len(index), pad={"which": which, "pos": pos})); index.append((dict(v, pad="%s:%s" % (which, pos), fmt=fmt), alg))
                     continue
-                reads.append(rd); index.append((v, alg))
-            runs.append({"id": len(runs), "mode": mode, "refs": REFS[nrefs], "cawg_alg": alg, "reads": reads})
+                reads.append(rd); index.append((dict(v, fmt=fmt), alg))
+            runs.append({"id": len(runs), "mode": mode, "refs": REFS[nrefs], "cawg_alg": alg, "format": fmt, "reads": reads})
     p = vh(["c33-run"], stdin="\n".join(json.dumps(x) for x in runs), timeout=6000)
     outs = [json.loads(l) for l in p.stdout.splitlines() if l.strip()]
     if len(outs) != len(runs):
@@ -54,7 +56,7 @@ def run(ctx):
             v, alg = index[rd["name"]]
             n += 1
             read = rd["read"]
-            key = "%s:%s:refs%d" % (v["mode"], v["changed"] + (":" + v["pad"] if v.get("pad") else ""), v["nrefs"])
+            key = "%s:%s:refs%d%s" % (v["mode"], v["changed"] + (":" + v["pad"] if v.get("pad") else ""), v["nrefs"], "" if v["fmt"] == "jpeg" else ":" + v["fmt"])
             if v.get("pad") and not rd.get("pad"):
                 continue        # this padding field does not exist in the assertion (nothing was changed)
             case = {"vector": v, "alg": alg, "read": read}
@@ -82,5 +84,5 @@ def run(ctx):
     ctx.cov["traces_validated_against_impl"] += n
     ctx.cov["evaluations"] = n
     ctx.cov["distinct_nontrivial"] = sum(1 for v in vecs if v["cawg"] == "failure")
-    ctx.cov["rule"] = "all 33 combinations of credential-holder behaviour x changed part (stored assertions, padding bytes) x number of referenced assertions, x %d CAWG key type(s); non-trivial = combinations with a broken binding" % len(algs)
+    ctx.cov["rule"] = "all 33 combinations of credential-holder behaviour x changed part (stored assertions, padding bytes) x number of referenced assertions, x %d (CAWG key type, asset format) pair(s); non-trivial = combinations with a broken binding" % len(combos)
     ctx.sample({"vector": vecs[0]})
